@@ -23,6 +23,8 @@ import (
 	"unsafe"
 
 	"github.com/mdlayher/corerad/internal/config"
+	"github.com/mdlayher/corerad/internal/netstate"
+	"github.com/mdlayher/corerad/internal/system"
 	"github.com/mdlayher/corerad/internal/verifh"
 	"github.com/mdlayher/sdnotify"
 )
@@ -382,7 +384,64 @@ func TestVerifC20(t *testing.T) {
 			v, _ := strconv.ParseUint(strings.TrimPrefix(s, "vif"), 10, 64)
 			return v
 		}
-		for _, task := range srv.BuildTasks(cfg, http.NotFoundHandler()) {
+		built := srv.BuildTasks(cfg, http.NotFoundHandler())
+		// end-to-end wiring of every interface task: a link-down event on ITS interface -- and only that --
+		// reaches its watch channel through the watcher's real notify path; its dialer is for that
+		// interface in the mode of the task
+		drain := func(c <-chan netstate.Change) (got []netstate.Change) {
+			for {
+				select {
+				case v, ok := <-c:
+					if !ok {
+						return got
+					}
+					got = append(got, v)
+				default:
+					return got
+				}
+			}
+		}
+		type wtask struct {
+			name  string
+			watch <-chan netstate.Change
+		}
+		var wts []wtask
+		for _, task := range built {
+			switch tk := task.(type) {
+			case *Advertiser:
+				wts = append(wts, wtask{tk.cfg.Name, tk.watchC})
+				if n, m := tk.dialer.VerifIfaceMode(); n != tk.cfg.Name || m != system.Advertise {
+					wired = false
+				}
+			case *Monitor:
+				wts = append(wts, wtask{tk.iface, tk.watchC})
+				if n, m := tk.dialer.VerifIfaceMode(); n != tk.iface || m != system.Monitor {
+					wired = false
+				}
+			}
+		}
+		names := map[string]bool{"vif-other": true}
+		for _, w := range wts {
+			names[w.name] = true
+		}
+		for target := range names {
+			srv.w.VerifNotify(target, netstate.LinkDown)
+			for _, w := range wts {
+				if w.watch == nil {
+					wired = false
+					continue
+				}
+				got := drain(w.watch)
+				// interfaces may repeat in a configuration: every task of the target interface hears it once
+				if w.name == target && (len(got) != 1 || got[0] != netstate.LinkDown) {
+					wired = false
+				}
+				if w.name != target && len(got) != 0 {
+					wired = false
+				}
+			}
+		}
+		for _, task := range built {
 			obsJ = append(obsJ, task.String())
 			switch tk := task.(type) {
 			case *Advertiser:
